@@ -2,21 +2,24 @@ import Sudachi.Model.Build
 /-!
 # Line protocol of the dictionary-compiler model (C06)
 
-`C06 build idx=<n> v=<5 bits d1..d5> rf=<cur|fix> fx=<5 bits n1 n3 s4 s5 s6> nd=<code points>
+`C06 build idx=<n> v=<5 bits d1..d5> rf=<cur|fix> fx=<7 bits n1 n3 s4 s5 s6 s7 s8> nd=<code points>
    user=<-|numSystem,maxLeft,maxRight> upos=<pos;…> usys=<word;…> ops=<op>|<op>|… desc=<n> trie=<n> ks=<-|all|n,…>`
 
 * `rf` = handling of the builder's `resolved` flag (`cur`: only `resolve` sets it; `fix`:
-  `read_lexicon` clears it); `fx` = which of the repairs N1, N3, S4, S5, S6 are present;
+  `read_lexicon` clears it); `fx` = which of the repairs N1, N3, S4, S5, S6, S7, S8 are present;
 * an op is one call on the builder, in order: `C<hex of the matrix text>` = `read_conn(..)?`,
   `I<hex>` = `let _ = read_conn(..)` (an `Err` is ignored), `R` = `resolve`,
-  `L<-|line of the csv failure>!<line,…>!<rec;…>` = `read_lexicon` (the records the csv
-  reader delivered with their line numbers);
+  `L<-|line of the csv failure>!<line,…>!<rec;…>` = `read_lexicon(..)?` (the records the csv
+  reader delivered with their line numbers), `J…` (same payload) = `let _ = read_lexicon(..)`;
 * a record is `h<hex>:h<hex>:…` (one item per field, hex of the UTF-8 bytes);
 * a POS row is six such items; a system word is `h<surface>:<pos id>:<n|r<hex reading>>`;
 * `ks` lists sink limits (bytes the sink accepts before failing) to try after the unlimited run;
   `all` = every limit from 0 to the output length + 1.  The answer is the unlimited outcome (a
   failure before `compile` is followed by `#<position of the failing op>`), then
-  ` ign=<result>,…` (the results of the ignored calls that were made) when there is an `I` op,
+  ` ign=<result>,…` (the results of the ignored calls that were made) when there is an `I` or `J`
+  op; the result of an ignored `read_lexicon` is followed by `/<A>/<B>`: what the builder it left
+  answers to `compile` (A) and to `resolve` then `compile` (B) — `ok:w<words>:p<own POS rows>`
+  (B: `ok:r<resolved units>:w…:p…`), `err:<kind>:<line>@<stage>`, `PANIC`, `NULKEY`;
   followed by ` sink=<outcome>*<count>,…` (run-length encoded in the order of the limits).
   A success reports the written matrix as `mx=<cells that are not 0>:<Σ (index+1)·cost mod 1000003>`
   (cost as the unsigned 16-bit value stored).
@@ -92,27 +95,33 @@ def optNat? (s : List Char) : Option (Option Nat) :=
 
 def variant? (s rf fx : List Char) : Option Variant :=
   match s, fx with
-  | [a, b, c, d, e], [n1, n3, s4, s5, s6] =>
+  | [a, b, c, d, e], [n1, n3, s4, s5, s6, s7, s8] =>
     if rf = ['c', 'u', 'r'] then
-      some ⟨a = '1', b = '1', c = '1', d = '1', e = '1', false, n1 = '1', n3 = '1', s4 = '1', s5 = '1', s6 = '1'⟩
+      some ⟨a = '1', b = '1', c = '1', d = '1', e = '1', false, n1 = '1', n3 = '1', s4 = '1', s5 = '1', s6 = '1',
+        s7 = '1', s8 = '1'⟩
     else if rf = ['f', 'i', 'x'] then
-      some ⟨a = '1', b = '1', c = '1', d = '1', e = '1', true, n1 = '1', n3 = '1', s4 = '1', s5 = '1', s6 = '1'⟩
+      some ⟨a = '1', b = '1', c = '1', d = '1', e = '1', true, n1 = '1', n3 = '1', s4 = '1', s5 = '1', s6 = '1',
+        s7 = '1', s8 = '1'⟩
     else none
   | _, _ => none
+
+/-- payload of a `read_lexicon` op -/
+def lexArgs? (r : List Char) : Option (List (Nat × List Str) × Option Nat) :=
+  match Wire.splitOn '!' r with
+  | [ce, lines, recs] =>
+    match optNat? ce, Wire.natList? lines, records? recs with
+    | some ce, some lines, some recs =>
+      if recs.length ≠ lines.length then none else some (lines.zip recs, ce)
+    | _, _, _ => none
+  | _ => none
 
 def op? (s : List Char) : Option Op :=
   match s with
   | ['R'] => some .resolve
   | 'C' :: h => (Wire.hexBytes? h).map (fun bs => .conn ((splitLines bs).map utf8Strict))
   | 'I' :: h => (Wire.hexBytes? h).map (fun bs => .connIgn ((splitLines bs).map utf8Strict))
-  | 'L' :: r =>
-    match Wire.splitOn '!' r with
-    | [ce, lines, recs] =>
-      match optNat? ce, Wire.natList? lines, records? recs with
-      | some ce, some lines, some recs =>
-        if recs.length ≠ lines.length then none else some (.lex (lines.zip recs) ce)
-      | _, _, _ => none
-    | _ => none
+  | 'L' :: r => (lexArgs? r).map (fun p => .lex p.1 p.2)
+  | 'J' :: r => (lexArgs? r).map (fun p => .lexIgn p.1 p.2)
   | _ => none
 
 def ops? (s : List Char) : Option (List Op) := Wire.allSome ((Wire.items '|' s).map op?)
@@ -164,7 +173,30 @@ def showRes : Res Unit → String
 
 def Op.isIgn : Op → Bool
   | .connIgn _ => true
+  | .lexIgn _ _ => true
   | _ => false
+
+/-- what `compile` (unlimited sink) answers on a builder, as far as the probes of an ignored
+`read_lexicon` show it: word and own-POS counts (`res` = `r<n>:` for probe B) -/
+def probeCompile (v : Variant) (b : Builder) (res : String) : String :=
+  match compile v b 0 0 none with
+  | .ok (_, d) => "ok:" ++ res ++ "w" ++ toString d.entries.length ++ ":p" ++ toString (d.pos.length - b.base.pos0.length)
+  | .err k l => "err:" ++ showKind k ++ ":" ++ toString l ++ "@compile"
+  | .panic .nulKey => "NULKEY"
+  | .panic _ => "PANIC"
+
+/-- probe A: `compile` right after the ignored call; probe B: `resolve()` then `compile` (`cnt` =
+units resolved by the calls before) -/
+def probes (v : Variant) (b : Builder) (cnt : Nat) : String :=
+  probeCompile v b "" ++ "/" ++
+    (match resolve b with
+    | .ok (b', n) => probeCompile v b' ("r" ++ toString (cnt + n) ++ ":")
+    | .err k l => "err:" ++ showKind k ++ ":" ++ toString l ++ "@resolve"
+    | .panic _ => "PANIC")
+
+def showIgn (v : Variant) : Bool × (Builder × Nat) × Res Unit → String
+  | (false, _, r) => showRes r
+  | (true, s, r) => showRes r ++ "/" ++ probes v s.1 s.2
 
 def shortOutcome : Outcome → String
   | .ok n _ _ => "ok:" ++ toString n
@@ -210,7 +242,7 @@ def handle (toks : List (List Char)) : String :=
           let inp : Input := { base := base, ops := ops, descLen := desc, trieLen := trie }
           let x : Ext := ⟨nd.map Char.ofNat⟩
           let ign := if ops.any Op.isIgn then
-              " ign=" ++ Wire.joinWith "," ((ignTrace v x (Builder.init v base, 0) ops).map showRes) else ""
+              " ign=" ++ Wire.joinWith "," ((ignTrace v x (Builder.init v base, 0) ops).map (showIgn v)) else ""
           match prepare v x inp with
           | .error f =>
             let o := f.toOutcome
